@@ -200,6 +200,25 @@ func genRuleText(T *verifsim.Tape, o *ksOutTable, maxRules int) string {
 	var b strings.Builder
 	b.WriteString("global {}\nrouting {\n")
 	n := T.Pick(1, 2, 3, 3, 3, 2, 2, 2, 1, 1, 1, 1, 1)
+	if n >= 11 && maxRules >= 12 {
+		// a wide program: more than 32 match sets, so the per-address domain bitmap spans several
+		// 32-bit words and domain() sets sit in different words (chosen by the rarest value of the
+		// existing draw; the draws below only happen in these runs)
+		n = 34 + T.Choose(10)
+		for i := 0; i < n; i++ {
+			var c ksGenCond
+			if i == 0 || i == n-1 || T.Chance(1, 5) {
+				c = genCond(T, 6) // domain
+			} else {
+				// narrow fillers (mac, pname, dscp, ports), so that the walk usually reaches the late rules
+				c = genCond(T, []int{7, 8, 9, 4, 1}[T.Choose(5)])
+			}
+			c.txt = strings.TrimPrefix(c.txt, "!")
+			fmt.Fprintf(&b, "    %s -> %s\n", c.txt, genOutboundText(T, o, true))
+		}
+		fmt.Fprintf(&b, "    fallback: %s\n}\n", genOutboundText(T, o, false))
+		return b.String()
+	}
 	if n > maxRules {
 		n = maxRules
 	}
